@@ -400,7 +400,8 @@ LEVEL_TEXT = ('Every input - valid files of each supported format from independe
               'inputs (random bytes, near-miss signatures, truncations, bit flips, splices, word / hostile-number / line edits, generator-level '
               'single-line DAT corruptions) - is identified by the real binary_file_type through a tapped in-memory file under a LINE-event '
               'step counter: expected code, code set, no exception, rewound and unchanged, logical-step budget; the BIT and DAT gates used by '
-              'the directory tools are held to the same standard.')
+              'the directory tools are held to the same standard.  A second clock (the process\'s own CPU time) covers loops inside C extensions, '
+              'and a coverage-guided leg (atheris / libFuzzer) mutates a corpus of valid files and signatures against the same entry points.')
 LEVEL_NOTE = ('Trusted: the generators for what a valid file is; the step budget constants (calibrated ~10x above the maximum observed). '
               'Arbitrary byte strings are sampled, not enumerated; the thorough tier adds volume, not a different oracle.')
 TECHNIQUE = 'runtime monitoring: oracle over identification executions with I/O tap (rewind), sys.monitoring step budget, metamorphic size/content pairs, hostile-input generators and coverage-guided fuzzing (atheris/libFuzzer)'
